@@ -22,8 +22,7 @@ PROP = dict(
          "unified files are re-read once more when complete. Non-trivial: >= 2 flowing wells compared, dynamic and schedule "
          "comparisons both made; distinct = hash of (deck text, unit system)",
     stages=[
-        dict(harness="c05_restart", flavour="plain", cases={Q: 2400, T: 30000}, timeout={Q: 1200, T: 7200},
-             args=["skip=dyn:segment.rate.gas:FIELD,sched:seg.volume:FIELD,sched:conn.depth.msw,sched:group.injctl.resv_max_rate,sched:restart-time-of-day-lost,dyn:action.run_count,sched:group.inj.voidage_group,sched:restart-refused:well-without-control-mode,sched:action.keyword:,sched:well.prod.OilRate.number-and-udq-name,sched:well.prod.OilRate.kind,sched:well.prod.WaterRate.dimension,sched:well.prod.OilRate.dimension,sched:well.prod.GasRate.dimension,sched:well.prod.LiquidRate.dimension,sched:well.prod.ResVRate.dimension"]),  # TEMPORARY-DEVELOPMENT-FILTER
+        dict(harness="c05_restart", flavour="plain", cases={Q: 2400, T: 30000}, timeout={Q: 1200, T: 7200}),
     ],
     min_nontrivial={Q: 1200, T: 15000},
     coverage_floor=[("c05_restart", "dynamic_comparisons", {Q: 2000000, T: 30000000}),
@@ -39,7 +38,7 @@ PROP = dict(
         "dynamic: integer solution arrays are written (INTE) but RestartIO::load only looks for REAL/DOUB arrays (a requested INTE "
         "array is reported missing); they stay in the file as context and are not requested",
         "dynamic: Eclipse-compatible output (IOConfig::setEclCompatibleRST(true): no extra arrays, no double) is not exercised",
-        "dynamic: segment phase rates are recombined from total flow and two fractions: compared to 1e-5 (design guard)",
+        "dynamic: segment phase rates are recombined from total flow and two fractions: compared to 1e-9 relative (largest error seen 6e-13)",
         "schedule: control mode and control bit set of a well are compared only when the simulator state has it running on the control "
         "its schedule requests - IWEL[ActWCtrl] holds the simulator's active control and the restarted Well reads its control mode "
         "(and, for history wells, its control set) from that slot",
@@ -63,7 +62,9 @@ PROP = dict(
         "written (the file stores values, not the selector)",
         "schedule: well lists without members leave no trace in the file (a later WLIST ADD to such a list is refused by the "
         "restarted run; counted as restart_refused_because_of_empty_well_list)",
-        "schedule: order of wells / child groups inside a group and of the list names per well is not compared (sets are)",
+        "schedule: order of wells / child groups inside a group is not compared (sets are); the per-well index of list names "
+        "(WListManager::getWListNames) is not compared - WLIST DEL leaves the name behind in the original's index - the content of every "
+        "list is",
         "schedule: WHISTCTL is removed from generated schedules: handleWHISTCTL calls Well::updateProduction on every well, which "
         "turns every injector into a producer without control mode (separate defect, reported)",
         "schedule: well test / economic limits / gas lift / TUNING / DRSDT / GUIDERAT / NETBALAN / GCONSUMP / VFP tables / RFT / "
@@ -72,5 +73,6 @@ PROP = dict(
     assumptions=["schedule-consistent state: well status and flowing connections follow the schedule (the file stores the dynamic status)",
                  "the generator's WELLDIMS item 11 is raised to 8 (wells are put into up to 3 lists), its run-on ACTIONX condition records "
                  "are split into one record per comparison, its COMPSEGS ranges are shifted onto the segments (harness-side corrections "
-                 "of the generated text, the shared generator is unchanged)"],
+                 "of the generated text, the shared generator is unchanged); the units item of VFPPROD / VFPINJ is defaulted in PVT-M decks and of "
+                 "VFPINJ in LAB decks (the keywords refuse those unit strings)"],
 )
